@@ -157,12 +157,22 @@ type streamState struct {
 	submitted atomic.Bool
 	cancelled atomic.Bool
 	calls     atomic.Int32
+	afterStop atomic.Bool // the (first) callback ran after the Run context had been cancelled
 
 	mu        sync.Mutex
 	errs      []error
 	want      []string
 	delivered map[string]bool
 	hit       bool // a write carrying data of this stream failed
+}
+
+func isCancellation(errs []error) bool {
+	for _, e := range errs {
+		if e != nil && (errors.Is(e, context.Canceled) || errors.Is(e, context.DeadlineExceeded)) {
+			return true
+		}
+	}
+	return false
 }
 
 func (s *streamState) isDelivered() bool {
@@ -192,12 +202,13 @@ type senderWorld struct {
 	runCancelled bool
 	stopped      bool
 
-	runCancel   context.CancelFunc
-	runDone     chan struct{}
-	progress    atomic.Int64
-	writes      atomic.Int64
-	cbSinceDial atomic.Int64 // callbacks since the last dial (the sender recycles a connection after 100 streams)
-	okAfter     atomic.Int64 // successful writes on a connection opened after some failure
+	runCancel     context.CancelFunc
+	runStopIssued atomic.Bool // set before the Run context is cancelled (by the script or by the harness at the end)
+	runDone       chan struct{}
+	progress      atomic.Int64
+	writes        atomic.Int64
+	cbSinceDial   atomic.Int64 // callbacks since the last dial (the sender recycles a connection after 100 streams)
+	okAfter       atomic.Int64 // successful writes on a connection opened after some failure
 
 	submit  func(s *streamState) error
 	pad     string
@@ -281,6 +292,7 @@ func (w *senderWorld) callback(s *streamState) gostatsd.SendCallback {
 		s.mu.Lock()
 		if s.calls.Load() == 0 {
 			s.errs = append([]error(nil), errs...)
+			s.afterStop.Store(w.runStopIssued.Load())
 		}
 		s.calls.Add(1)
 		s.mu.Unlock()
@@ -325,6 +337,7 @@ func (w *senderWorld) scriptedCancel(n int) {
 		w.runCancelled = true
 		w.subMu.Unlock()
 		w.logf("cancel Run at dial %d", n)
+		w.runStopIssued.Store(true)
 		w.runCancel()
 	}
 }
@@ -575,6 +588,7 @@ func runSenderCase(r *mon.Run, c senderCase) {
 	w.subMu.Lock()
 	w.stopped = true
 	w.subMu.Unlock()
+	w.runStopIssued.Store(true)
 	cancel()
 	runReturned := true
 	select {
@@ -624,6 +638,16 @@ func runSenderCase(r *mon.Run, c senderCase) {
 			producerMayStop := c.Target != "sender" && s.cancelled.Load()
 			if !s.isDelivered() && !hasErr(errs) && (hit || !producerMayStop) {
 				r.Violation(c.Target+":no-error-on-undelivered:"+class, detail(s, fmt.Sprintf("was not fully written (write failed on its data: %v) but its callback carried no error (%v)", hit, errStrings(errs))), payload)
+			}
+			// "answered when the connection recovers or the request is cancelled": a request that nobody cancelled,
+			// answered while Run was still wanted, must not carry a cancellation and must have been written unless a
+			// write of its data failed.
+			if !s.cancelled.Load() && !s.afterStop.Load() {
+				if isCancellation(errs) {
+					r.Violation(c.Target+":cancelled-but-never-cancelled:"+class, detail(s, fmt.Sprintf("was answered with %v although neither its context nor the sender's was cancelled", errStrings(errs))), payload)
+				} else if !s.isDelivered() && !hit {
+					r.Violation(c.Target+":dropped-without-failure:"+class, detail(s, fmt.Sprintf("was answered (%v) without having been written and without a failed write of its data", errStrings(errs))), payload)
+				}
 			}
 			if s.isDelivered() && hasErr(errs) {
 				r.Event("error_although_delivered:"+c.Target, 1)
